@@ -1,4 +1,5 @@
 import GlareModel.Proofs.SortKeyCol
+import GlareModel.Core.Merge
 
 /-!
 # C08 — ORDER BY yields a correctly sorted permutation; LIMIT/OFFSET the exact slice
@@ -60,5 +61,115 @@ example : allFixed [⟨.float 8, true, false⟩, ⟨.int 4, false, true⟩, ⟨.
       [.bits 0x7FF8000000000000, .null, .iv 1 0xFFFFFFFF 5] = true := by decide
 example : lexLt (encodeCol ⟨.float 8, false, false⟩ (.bits 0x3FF00000000FFFFF))
     (encodeCol ⟨.float 8, false, false⟩ (.bits 0x3FF0000000100000)) = true := by decide
+
+end GlareModel.Props.C08
+
+/-! ## Merging sorted runs (Core/Merge.lean) -/
+
+namespace GlareModel.Props.C08
+open GlareModel.Merge
+universe u
+variable {α : Type u}
+
+theorem merge_perm (le : α → α → Bool) (xs ys : List α) : (merge le xs ys).Perm (xs ++ ys) := by
+  fun_induction merge le xs ys with
+  | case1 ys => simp
+  | case2 x xs => simp
+  | case3 x xs y ys h ih => exact List.Perm.cons x ih
+  | case4 x xs y ys h ih =>
+    refine List.Perm.trans (List.Perm.cons y ih) ?_
+    exact (List.perm_middle (a := y) (l₁ := x :: xs) (l₂ := ys)).symm
+
+theorem mem_merge (le : α → α → Bool) (xs ys : List α) (a : α) : a ∈ merge le xs ys ↔ a ∈ xs ∨ a ∈ ys := by
+  rw [(merge_perm le xs ys).mem_iff, List.mem_append]
+
+/-- A total, transitive comparison: what the byte-wise comparison of normalised keys is (C08's
+order-embedding theorems). -/
+structure TotalPreorder (le : α → α → Bool) : Prop where
+  total : ∀ a b, le a b = true ∨ le b a = true
+  trans : ∀ a b c, le a b = true → le b c = true → le a c = true
+
+theorem merge_sorted (le : α → α → Bool) (h : TotalPreorder le) (xs ys : List α)
+    (hx : xs.Pairwise (fun a b => le a b = true)) (hy : ys.Pairwise (fun a b => le a b = true)) :
+    (merge le xs ys).Pairwise (fun a b => le a b = true) := by
+  fun_induction merge le xs ys with
+  | case1 ys => exact hy
+  | case2 x xs => exact hx
+  | case3 x xs y ys hle ih =>
+    have hx' := List.pairwise_cons.mp hx
+    refine List.pairwise_cons.mpr ⟨?_, ih hx'.2 hy⟩
+    intro a ha
+    rcases (mem_merge le xs (y :: ys) a).mp ha with h1 | h2
+    · exact hx'.1 a h1
+    · rcases List.mem_cons.mp h2 with h3 | h4
+      · subst h3; exact hle
+      · exact h.trans x y a hle ((List.pairwise_cons.mp hy).1 a h4)
+  | case4 x xs y ys hle ih =>
+    have hy' := List.pairwise_cons.mp hy
+    have hyx : le y x = true := by
+      rcases h.total x y with h1 | h2
+      · exact absurd h1 hle
+      · exact h2
+    refine List.pairwise_cons.mpr ⟨?_, ih hx hy'.2⟩
+    intro a ha
+    rcases (mem_merge le (x :: xs) ys a).mp ha with h1 | h2
+    · rcases List.mem_cons.mp h1 with h3 | h4
+      · subst h3; exact hyx
+      · exact h.trans y x a hyx ((List.pairwise_cons.mp hx).1 a h4)
+    · exact hy'.1 a h2
+
+/-- **Any merge order gives a sorted permutation of all rows**: however the merge queue pairs up
+the sorted runs (any binary tree, any number of runs), the final run is sorted and contains
+exactly the rows of all runs. -/
+theorem merge_tree_sorted_perm (le : α → α → Bool) (h : TotalPreorder le) (t : Tree α) (ht : t.RunsSorted le) :
+    (t.eval le).Pairwise (fun a b => le a b = true) ∧ (t.eval le).Perm t.rows := by
+  induction t with
+  | run rows => exact ⟨ht, List.Perm.refl _⟩
+  | node l r ihl ihr =>
+    obtain ⟨hl, hr⟩ := ht
+    obtain ⟨sl, pl⟩ := ihl hl
+    obtain ⟨sr, pr⟩ := ihr hr
+    refine ⟨merge_sorted le h _ _ sl sr, ?_⟩
+    exact (merge_perm le _ _).trans (List.Perm.append pl pr)
+
+theorem merge_take_general (le : α → α → Bool) (n : Nat) (xs ys : List α) (a b : Nat) (ha : n ≤ a) (hb : n ≤ b) :
+    (merge le xs ys).take n = (merge le (xs.take a) (ys.take b)).take n := by
+  induction n generalizing xs ys a b with
+  | zero => simp
+  | succ n ih =>
+    obtain ⟨a', rfl⟩ : ∃ a', a = a' + 1 := ⟨a - 1, by omega⟩
+    obtain ⟨b', rfl⟩ : ∃ b', b = b' + 1 := ⟨b - 1, by omega⟩
+    cases xs with
+    | nil =>
+      cases ys with
+      | nil => simp [merge]
+      | cons y ys =>
+        simp only [List.take_nil, merge]
+        rw [List.take_take, Nat.min_eq_left (by omega)]
+    | cons x xs =>
+      cases ys with
+      | nil =>
+        simp only [List.take_nil, merge, List.take_succ_cons]
+        rw [List.take_take, Nat.min_eq_left (by omega)]
+      | cons y ys =>
+        simp only [List.take_succ_cons, merge]
+        split
+        · simp only [List.take_succ_cons]
+          congr 1
+          have := ih xs (y :: ys) a' (b' + 1) (by omega) (by omega)
+          simpa [List.take_succ_cons] using this
+        · simp only [List.take_succ_cons]
+          congr 1
+          have := ih (x :: xs) ys (a' + 1) b' (by omega) (by omega)
+          simpa [List.take_succ_cons] using this
+
+/-- **Limit hint**: the first `n` rows of a merge only depend on the first `n` rows of each run, so
+truncating every run to `n` rows before merging (what `limit_hint` does at every stage) never loses
+one of the first `n` output rows. -/
+theorem merge_take (le : α → α → Bool) (n : Nat) (xs ys : List α) :
+    (merge le xs ys).take n = (merge le (xs.take n) (ys.take n)).take n :=
+  merge_take_general le n xs ys n n (Nat.le_refl _) (Nat.le_refl _)
+
+example : merge (fun a b : Nat => a ≤ b) [1, 4, 9] [2, 3, 10] = [1, 2, 3, 4, 9, 10] := by simp [merge]
 
 end GlareModel.Props.C08
